@@ -90,8 +90,15 @@ def legendre_oracle(a, n):
     """product of Legendre symbols over the prime factorisation of odd n >= 3 (Euler criterion per prime factor)"""
     a %= n
     if n > 10 ** 7:
-        # only used for moduli known to be prime (the curve primes and orders): Euler's criterion
-        return 0 if a == 0 else (1 if pow(a, (n - 1) // 2, n) == 1 else -1)
+        # large moduli: product of Euler's criterion over the known prime factorisation (sympy.factorint is exact;
+        # the structured composites of the domain are products of a few known primes)
+        from sympy import factorint
+        res = 1
+        for q, e in factorint(n).items():
+            t = a % q
+            l = 0 if t == 0 else (1 if pow(t, (q - 1) // 2, q) == 1 else -1)
+            res *= l ** e
+        return res
     res = 1
     m = n
     p = 3
@@ -135,6 +142,14 @@ def _jac_domain(tier, seed):
         for n in (c_.curve.p(), c_.order):
             for a in (0, 1, 2, 3, 5, n - 1, n - 2, n + 2, 2 ** 64 + 13, -7, (n - 1) // 2):
                 yield dict(a=a, n=n)
+    # structured arguments: long runs of trailing zero bits in a (the factor-of-two loop), composite odd n, n in every class mod 8
+    big_n = [c_.order for c_ in cv.curves[:6]] + [2 ** 61 - 1, 3 * (2 ** 89 - 1), (2 ** 31 - 1) * (2 ** 61 - 1), 5 * 7 * (2 ** 107 - 1), (2 ** 89 - 1) ** 2, 11 * (2 ** 127 - 1)]
+    for n in big_n:
+        if n % 2 == 0:
+            continue
+        for e in (1, 2, 7, 8, 16, 31, 32, 33, 34, 63, 64, 65, 66, 100, 127, 128):
+            for odd in (1, 3, 5, 12345):
+                yield dict(a=(2 ** e) * odd, n=n)
 
 
 _jc = _R[NT + "jacobi"]
@@ -182,9 +197,33 @@ def _sqrt_domain(tier, seed):
             yield dict(a=a, p=p)
     import ecdsa.curves as cv
     big = [c_.curve.p() for c_ in cv.curves] + [c_.order for c_ in cv.curves] + [2 ** 255 - 19, 2 ** 127 - 1, 2 ** 89 - 1, 2 ** 64 - 59, 0xFFFFFFFFFFFFFFFFFFFFFFFFFFFFFFFFFFFFFFFFFFFFFFFFFFFFFFFEFFFFFC2F]
-    for p in big:
+    for p in big + structured_primes():
         for a in (0, 1, 2, 3, 4, p - 1, p - 4, (p - 1) // 2, 9, pow(12345, 2, p), pow(p - 5, 2, p), 2 ** 64 % p):
             yield dict(a=a % p, p=p)
+
+
+_STRUCT = []
+
+
+def structured_primes():
+    """primes p = 1 (mod 8) whose exponent (p + 1) / 2 in the Cipolla branch has long runs of zero or one bits: Proth primes
+    c * 2^m + 1 for word-sized and multi-word m, the 64-bit Goldilocks prime, the STARK field prime, 2^m - c primes"""
+    if _STRUCT:
+        return _STRUCT
+    from sympy import isprime
+    out = [2 ** 64 - 2 ** 32 + 1, 2 ** 251 + 17 * 2 ** 192 + 1]
+    for m in (31, 32, 33, 63, 64, 65, 96, 127, 128, 129, 130, 160, 192, 200, 256):
+        c = 1
+        while not isprime(c * 2 ** m + 1):
+            c += 2
+        out.append(c * 2 ** m + 1)
+    for m in (61, 64, 89, 127, 128, 192, 255, 256):
+        c = 1
+        while not (isprime(2 ** m - c) and (2 ** m - c) % 8 == 1):
+            c += 2
+        out.append(2 ** m - c)
+    _STRUCT.extend(out)
+    return _STRUCT
 
 
 def _sqrt_check(self, args, fn=None):
